@@ -366,22 +366,19 @@ def rtoAfterSample (srtt rttvar : Nat) : Nat := if srtt + 4 * rttvar < minRTO th
 def rtoAfterExpiry (rto : Nat) : Nat := rto * 2
 
 theorem rto_statements_pinned :
-    Gen.Shapes.tcp_rto_expired = ["if s.rto >= 60*time.Second", "s.rto *= 2"] ∧
-    Gen.Shapes.tcp_rto_update = ["s.rto = s.rtt.srtt + 4*s.rtt.rttvar", "if s.rto < minRTO", "s.rto = minRTO"] ∧
-    Gen.Shapes.tcp_rtt_sample = ["if !s.ep.sendTSOk && s.rttMeasureSeqNum.LessThan(seg.ackNumber) && !s.sndNxt.LessThan(seg.ackNumber)", "s.updateRTO(time.Now().Sub(s.rttMeasureTime))", "s.rttMeasureSeqNum = s.sndNxt"] ∧
+    Gen.Shapes.tcp_rto_expired = ["if v0.rto >= 60*time.Second", "v0.rto *= 2"] ∧
+    Gen.Shapes.tcp_rto_update = ["v0.rto = v0.rtt.srtt + 4*v0.rtt.rttvar", "if v0.rto < minRTO", "v0.rto = minRTO"] ∧
+    Gen.Shapes.tcp_rtt_sample = ["if !v0.ep.sendTSOk && v0.rttMeasureSeqNum.LessThan(v1.ackNumber) && !v0.sndNxt.LessThan(v1.ackNumber)", "v0.updateRTO(time.Now().Sub(v0.rttMeasureTime))", "v0.rttMeasureSeqNum = v0.sndNxt"] ∧
     Gen.Consts.tcp_minRTO = 200000000 := by decide
 
 /-- the statements the congestion model mirrors -/
 theorem congestion_statements_pinned :
-    Gen.Shapes.tcp_send_gate = ["for seg != nil && s.outstanding < s.sndCwnd", "s.outstanding++"] ∧
-    Gen.Shapes.tcp_cwnd_ss = ["newcwnd := r.s.sndCwnd + packetsAcked", "if newcwnd >= r.s.sndSsthresh", "newcwnd = r.s.sndSsthresh",
-      "packetsAcked -= newcwnd - r.s.sndCwnd", "r.s.sndCwnd = newcwnd"] ∧
-    Gen.Shapes.tcp_cwnd_ca = ["r.s.sndCAAckCount += packetsAcked", "if r.s.sndCAAckCount >= r.s.sndCwnd",
-      "r.s.sndCwnd += r.s.sndCAAckCount / r.s.sndCwnd", "r.s.sndCAAckCount = r.s.sndCAAckCount % r.s.sndCwnd"] ∧
-    Gen.Shapes.tcp_cwnd_rto = ["r.s.sndCwnd = 1"] ∧
-    Gen.Shapes.tcp_ssthresh = ["r.s.sndSsthresh = r.s.outstanding / 2", "if r.s.sndSsthresh < 2", "r.s.sndSsthresh = 2"] ∧
-    Gen.Shapes.tcp_cwnd_dupack = ["s.dupAckCount = 0", "s.dupAckCount = 0", "s.dupAckCount++", "if s.dupAckCount < nDupAckThreshold",
-      "s.dupAckCount = 0", "s.dupAckCount = 0"] := by decide
+    Gen.Shapes.tcp_send_gate = ["for v2 != nil && v0.outstanding < v0.sndCwnd", "v0.outstanding++"] ∧
+    Gen.Shapes.tcp_cwnd_ss = ["v2 := v0.s.sndCwnd + v1", "if v2 >= v0.s.sndSsthresh", "v2 = v0.s.sndSsthresh", "v1 -= v2 - v0.s.sndCwnd", "v0.s.sndCwnd = v2"] ∧
+    Gen.Shapes.tcp_cwnd_ca = ["v0.s.sndCAAckCount += v1", "if v0.s.sndCAAckCount >= v0.s.sndCwnd", "v0.s.sndCwnd += v0.s.sndCAAckCount / v0.s.sndCwnd", "v0.s.sndCAAckCount = v0.s.sndCAAckCount % v0.s.sndCwnd"] ∧
+    Gen.Shapes.tcp_cwnd_rto = ["v0.s.sndCwnd = 1"] ∧
+    Gen.Shapes.tcp_ssthresh = ["v0.s.sndSsthresh = v0.s.outstanding / 2", "if v0.s.sndSsthresh < 2", "v0.s.sndSsthresh = 2"] ∧
+    Gen.Shapes.tcp_cwnd_dupack = ["v0.dupAckCount = 0", "v0.dupAckCount = 0", "v0.dupAckCount++", "if v0.dupAckCount < nDupAckThreshold", "v0.dupAckCount = 0", "v0.dupAckCount = 0"] := by decide
 
 /-- timeouts the sender can ever use: the initial one, one computed from a sample, or a doubled one -/
 inductive RtoReach : Nat → Prop
